@@ -191,6 +191,9 @@ class Pipeline(object):
 
             if self._concurrency:
                 self._unpaused_event.set()
+            else:
+                # A previous stop() leaves the event set
+                self._unpaused_event.clear()
 
         while self._state == PipelineState.running:
             yield from self._process_one_worker()
